@@ -1,4 +1,8 @@
 """C01 Every parse result is a valid derivation of the user's grammar."""
+import os
+import shutil
+import tempfile
+
 import vf
 vf.use_repo()
 from ak import llparser  # noqa: E402
@@ -265,19 +269,54 @@ def run_case(ctx, mon, cfg_id, terms, prods, inputs_spec=None, rng=None, any_spe
             text = " ".join(snt[:i]) + " //x" + sep + " ".join(snt[i:j]) + "\n" + " ".join(snt[j:])
             inputs_spec.append((shown, text, [(t, t) for t in shown], False))
             ctx.count("sentences_with_a_part_hidden_in_a_comment")
+    plain_texts = [it[1] for it in inputs_spec if len(it) < 5 or it[4] is None]
     for spec_item in inputs_spec:
         toks, text, expected, as_lines = spec_item[:4]
         explicit = spec_item[4] if len(spec_item) > 4 else None
         expected = [tuple(x) for x in expected]
+        file_content = spec_item[5] if len(spec_item) > 5 else None
+        if rng is not None and len(spec_item) < 5 and not as_lines and len(text) % 5 == 2 and usable_as_file_name(text):
+            # the working directory happens to hold a file whose NAME reads like the text (another text of this
+            # grammar is in it): what is parsed is the text
+            others = [t for t in plain_texts if t != text]
+            file_content = others[len(text) % len(others)] if others else text + "\n" + text
+        if file_content is not None:
+            try:
+                with open(text, "x", encoding="utf-8") as f:
+                    f.write(file_content)
+                ctx.count("texts_that_are_also_the_name_of_a_file")
+            except OSError:
+                file_content = None
         for smart, parser in parsers.items():
             ctx.evaluated()
             case = {"cfg": cfg_id, "terms": terms, "prods": {k: [list(a) for a in v] for k, v in prods.items()},
                     "any_token_except": any_spec,
-                    "inputs": [[toks, text, [list(x) for x in expected], as_lines, explicit]]}
+                    "inputs": [[toks, text, [list(x) for x in expected], as_lines, explicit, file_content]]}
             judge_parse(ctx, mon, cfg, parser, prods, start, toks, text, expected, smart, as_lines, case, explicit)
+        if file_content is not None:
+            os.remove(text)
     return inputs_spec
 
 
+def usable_as_file_name(text):
+    return 0 < len(text.encode()) < 200 and "/" not in text and "\x00" not in text and text not in (".", "..")
+
+
+def in_scratch_directory(fn):
+    """the checks run in an empty directory of their own (some texts are made the name of a file there)"""
+    def wrapped(ctx, *args):
+        old = os.getcwd()
+        scratch = tempfile.mkdtemp(prefix="vf-c01-")
+        os.chdir(scratch)
+        try:
+            return fn(ctx, *args)
+        finally:
+            os.chdir(old)
+            shutil.rmtree(scratch, ignore_errors=True)
+    return wrapped
+
+
+@in_scratch_directory
 def run_shard(ctx):
     mon = llmon.ParseMonitor()
     try:
@@ -296,6 +335,7 @@ def run_shard(ctx):
         mon.close()
 
 
+@in_scratch_directory
 def replay(ctx, case):
     mon = llmon.ParseMonitor()
     try:
